@@ -227,6 +227,8 @@ fn keyish(kem: KemId) -> BoxedStrategy<Bytes> {
         }),
         2 => gen::bytes(300),
         1 => Just(Bytes(vec![])),
+        // X25519: the small-order encodings (other KEMs: just another wrong-length input)
+        2 => (0usize..14).prop_map(|i| Bytes(crate::corpus::small_order_14().map(|v| v[i % v.len()].to_vec()).unwrap_or_default())),
     ]
     .boxed()
 }
@@ -292,6 +294,16 @@ impl Property for P {
                 cts.push(Case::Receiver { sess, enc: None, pk_s: None, ct: Bytes(gen::fill(len, 9, len as u64)), aad: Bytes(vec![]), tag: Bytes(gen::fill(16, 9, 1)) });
             }
         }
+        let mut small = Vec::new();
+        for (i, u) in crate::corpus::small_order_14().unwrap_or_default().into_iter().enumerate() {
+            for mode in 0..4u8 {
+                let s = Suite { kem: KemId::X25519, kdf: KdfId::Sha256, aead: AeadId::SEALING[i % 3] };
+                let ct = Bytes(gen::fill(40, 9, i as u64));
+                small.push(Case::Receiver { sess: gen::cell_session(s, mode, 13), enc: Some(Bytes(u.to_vec())), pk_s: None, ct: ct.clone(), aad: Bytes(vec![]), tag: Bytes(gen::fill(16, 9, 2)) });
+                small.push(Case::Receiver { sess: gen::cell_session(s, mode | 2, 13), enc: None, pk_s: Some(Bytes(u.to_vec())), ct: ct.clone(), aad: Bytes(vec![]), tag: Bytes(gen::fill(16, 9, 2)) });
+                small.push(Case::Sender { sess: gen::cell_session(s, mode, 13), pk_r: Some(Bytes(u.to_vec())), pt: Bytes(b"pt".to_vec()), aad: Bytes(vec![]) });
+            }
+        }
         let mut keys = Vec::new();
         for kem in KemId::ALL {
             for kind in [SerKind::Pk, SerKind::Sk, SerKind::Enc] {
@@ -311,7 +323,7 @@ impl Property for P {
                 keys.push(Case::FromBytes { kem: KemId::X25519, aead, kind: SerKind::Tag, bytes: Bytes(gen::fill(len, 9, 5)) });
             }
         }
-        vec![("every_ciphertext_length_0_to_Nt_plus_17_x_36_suites".into(), cts), ("every_key_length_all_types".into(), keys)]
+        vec![("every_ciphertext_length_0_to_Nt_plus_17_x_36_suites".into(), cts), ("every_key_length_all_types".into(), keys), ("x25519_small_order_keys_every_role_and_mode".into(), small)]
     }
     fn check(&self, case: &Case, obs: &mut Obs) -> Verdict {
         check(case, obs)
